@@ -40,6 +40,7 @@ FN_TRAITS = ("std::ops::FnOnce", "std::ops::FnMut", "std::ops::Fn", "core::ops::
 SCALARS = set(["usize", "u8", "u16", "u32", "u64", "u128", "isize", "i8", "i16", "i32", "i64", "i128", "bool", "char"])
 
 PURE_OBSERVERS = set(["is_empty", "len"])
+PURE_CONSTANTS = {"of": ("std::any::TypeId", "core::any::TypeId"), "new": ("shred::world::ResourceId",)}
 
 NONE = ("agg", "adt", OPTION + "::None", (), ())
 UNIT = ("agg", "tuple", "tuple", (), ())
@@ -203,6 +204,8 @@ class Evaluator(object):
         self._loops = {}
         self.n_ends = 0
         self._prom = {}
+        self.pure_targs = {}
+        self.subst = {}        # fid -> {generic parameter name: type string in the root's vocabulary}
         self.inlined = set()   # keys of bodies evaluated in place
         self.modelled = set()  # names of modelled std functions met
 
@@ -220,6 +223,30 @@ class Evaluator(object):
 
     def callee(self, site):
         return self.callees.get(site)
+
+    def targs(self, t):
+        """Type arguments of the call that produced term `t`, expressed in the generic parameters of the evaluated
+        function (those written in a helper that was evaluated in place are translated back)."""
+        if not (isinstance(t, tuple) and t and t[0] == "call"):
+            return None
+        c = self.callees.get(t[1])
+        if c is None or not hasattr(c, "type_args"):
+            return None
+        if t[1] in self.pure_targs:
+            return list(self.pure_targs[t[1]])
+        fid = t[1][0] if isinstance(t[1], tuple) and t[1] and t[1][0] != "pure" else None
+        s = self.subst.get(fid, {}) if fid is not None else {}
+        return [_subst_ty(a["s"], s) for a in c.type_args()]
+
+    def self_arg(self, t):
+        if not (isinstance(t, tuple) and t and t[0] == "call"):
+            return None
+        c = self.callees.get(t[1])
+        sa = getattr(c, "self_arg_s", None)
+        if sa is None:
+            return None
+        fid = t[1][0] if isinstance(t[1], tuple) and t[1] and t[1][0] != "pure" else None
+        return _subst_ty(sa, self.subst.get(fid, {}) if fid is not None else {})
 
     def body_of(self, site):
         return self.frames[site[0]][0]
@@ -664,7 +691,7 @@ class Evaluator(object):
         if results is None:
             tb = self.facts.target_bodies(c, precise=True) if not c.indirect else []
             if len(tb) == 1 and self._may_inline(fid, tb[0]):
-                results = self.inline(fid, bb, tb[0], args, env, path, upvars=None)
+                results = self.inline(fid, bb, tb[0], args, env, path, upvars=None, callee=c)
         if results is None:
             results = self.opaque(site, c, args, env, path)
         out = []
@@ -694,6 +721,11 @@ class Evaluator(object):
         if c.name in PURE_OBSERVERS and not getattr(c, "local", False) and args and all(self._immutable_input(a) for a in args):
             # asking the same question about something nobody can change gives the same answer: one atom, not one per site
             site = ("pure", c.name, args)
+        elif not args and c.name in PURE_CONSTANTS and (getattr(c, "path", "") or "").split("::<")[0].rsplit("::", 1)[0] in PURE_CONSTANTS[c.name] and hasattr(c, "type_args"):
+            # a value fully determined by its type arguments (`TypeId::of::<T>()`, `ResourceId::new::<T>()`)
+            fid = site[0]
+            site = ("pure", c.name, tuple(_subst_ty(a["s"], self.subst.get(fid, {})) for a in c.type_args()))
+            self.pure_targs[site] = list(site[2])
         self.callees[site] = c
         v = ("call", site, args)
         path.events.append(("call", site, c, args, v))
@@ -735,11 +767,23 @@ class Evaluator(object):
             return False
         return all(k != tb.key for (_, k) in fid)
 
-    def inline(self, fid, bb, cb, args, env, path, upvars=None, closure_args=None):
+    def inline(self, fid, bb, cb, args, env, path, upvars=None, closure_args=None, callee=None):
         """Evaluate body `cb` in place.  For closures: `upvars` maps capture names to terms and
         `closure_args` are the (already untupled) arguments."""
         nfid = fid + ((bb, cb.key),)
         self.frames[nfid] = (cb, upvars)
+        # what the callee's generic parameters stand for, in the vocabulary of the evaluated function
+        outer = self.subst.get(fid, {})
+        if cb.is_closure:
+            self.subst[nfid] = outer
+        else:
+            s = {}
+            if callee is not None and getattr(callee, "args", None):
+                gens = dict((g["index"], g["name"]) for g in cb.raw.get("generics", []))
+                for i, a in enumerate(callee.args):
+                    if a.get("k") == "ty" and i in gens:
+                        s[gens[i]] = _subst_ty(a["s"], outer)
+            self.subst[nfid] = s
         self.inlined.add(cb.key)
         if cb.is_closure:
             env[(nfid, 1)] = ("closure_env",)
@@ -962,6 +1006,13 @@ class Cx(object):
         return o if (o is not None and o.get("k") == "const" and "fn" in o) else None
 
 
+def _subst_ty(s, m):
+    if not m or not s:
+        return s
+    import re
+    return re.sub(r"\b([A-Za-z_][A-Za-z0-9_]*)\b", lambda mo: m.get(mo.group(1), mo.group(1)) if mo.group(1) in m else mo.group(1), s)
+
+
 def _mentions_loop(t, lid):
     if not isinstance(t, tuple) or not t:
         return False
@@ -1047,6 +1098,8 @@ def _kind_of(c):
         return "vec"
     if c.crate in ("rayon", "rayon_core"):
         return "rayon"
+    if sh == "std::collections::hash_map::Entry":
+        return "hashentry"
     return None
 
 
